@@ -91,3 +91,20 @@ PROPS["C09"] = {
         "MATCHED_VAR* macros inside SecAction are not generated (undocumented)",
     ],
 }
+
+PROPS["C01"] = {
+    "level": "exploration",
+    "runs": [run("TestC01", (6000, 4), (200000, 16))],
+    "rule": "cases = 1..6 rules in any phase over 17 request/response variables; 1..3 targets each with no selector, a string key (case "
+            "varied) or a regex key; '&' counts; 0..2 exclusions (!VAR, !VAR:key, !VAR:/re/); 0..3 transformations; 15 operators with "
+            "arguments cut from request values; '!' negation; chains of 1..3; multiMatch x requests with duplicate, case-variant and empty "
+            "names, the same name in GET and POST, non-UTF-8 values; oracle = reference evaluator (fired ids in order + per rule the "
+            "multiset of (variable, key, value)); non-trivial = some but not all rules fire and the case has a selector / exclusion / "
+            "count / chain / multiMatch or a duplicated name; distinct = distinct case encodings",
+    "essential": {"all": ["string-key", "regex-key", "count", "exclusion", "chain", "multiMatch", "dup-or-case-variant-name",
+                          "same-key-in-GET-and-POST", "empty-name", "non-utf8-value"]},
+    "assumptions": COMMON_ASSUME + [
+        "reference evaluator (DESIGN.md 3.3); regex keys are generated without upper-case-sensitive escapes; exclusions name a variable of the target list",
+        "operator arguments and keys restricted to bytes that need no quoting (C16 owns the directive syntax)",
+    ],
+}
